@@ -45,6 +45,18 @@ CHECKS = {
  "C13": ("World", "6 C13", "TLC checks the code's filter algorithm equal to the declarative Match over every population of 3 agents x 2 types x tags {0,1,7} and all "
          "templates/tag filters (negative control: `if tag:`). On real environments get_agents must equal the filter in joining order, 200 reseeded random picks must "
          "cover exactly the match set, shuffle must be a permutation of it, the returned lists are mutated by the driver and the environment must stay unchanged."),
+ "C09": ("Grid", "6 C09", "Grid.tla defines the cell table, the id formula and get_cell's range test as the code computes them; TLC checks injectivity, range 0..cells-1, "
+         "table inverse and exact bounds for all 125 shapes 0..4^3 (negative controls: raw-extent id formula = repaired defect D3, raw-extent range test = D1). "
+         "Exhaustive binding: every shape 0..3^3 (thorough 0..5^3) as DiscreteWorld/LineWorld/GridWorld, id of every cell, the world's position table, get_cell "
+         "with two distinguishing cell components at every coordinate inside and one step outside; TLC judges every answer."),
+ "C10": ("Grid", "6 C10", "TLC checks for all shapes 0..3^3 (thorough 0..4^3), all centres, radii 0..7(9), both flags that the code's clipped triple loop equals the metric "
+         "ball in ascending cell order for Chebyshev and Manhattan distance, that the id form denotes the same cells, symmetry and Neumann-in-Moore (negative "
+         "controls: <= r+1, raw id formula). Every query of that space is executed on real worlds in 12 representations (centre as id/tuple/position component "
+         "with offsets, tuple/id return, specific/generic entry point) and compared by TLC with the Ball it computes."),
+ "C11": ("Grid", "6 C11", "TLC explores add/remove/mutate-source histories over names x source kinds x shapes and checks each column equals its source's value per cell "
+         "and that other columns and the cell set are untouched. Graph walks and random histories on real worlds (callable, list, numpy array mutated afterwards, "
+         "ConstantGenerator, LookupGenerator with a table of the world's dimensionality) log all columns after each call; TLC compares. LookupGenerator on "
+         "LineWorld/GridWorld raising is KNOWN-FINDING F4."),
 }
 
 TECH = "TLA+ specification model-checked with TLC; implementation traces (spec->code graph walks and code->spec drivers) validated by TLC against the trace specification"
